@@ -60,7 +60,7 @@ def run_parser_model(ctx, props, cbfail_ok=True):
             " CbFail = {%s}\n Known <- KnownSet\nSPECIFICATION Spec\nINVARIANTS %s TypeOK\nVIEW View\nCHECK_DEADLOCK FALSE\n"
             % (mt, mc, ma, "TRUE" if ad else "FALSE", ", ".join('"%s"' % x for x in cf), " ".join(invs)))
         r = vlib.run_tlc(ctx, "HtpParserMC", cfgp, workers=4 if ctx.quick else 8, timeout=600 if ctx.quick else 5000, xmx="6g" if ctx.quick else "16g",
-                         name=name, cwd=d, coverage=True)
+                         name=name, cwd=d, coverage=(c in QUICK))      # TLC's coverage collection slows the large thorough configurations several times
         if r.error:
             sys.stdout.write(r.out[-3000:])
             raise vlib.Infra("model checking HtpParser failed: %s (config %s)" % (r.error, c))
